@@ -118,6 +118,11 @@ def record_workspace(rng):
         ws.groups = [(f1, group)]
         if local_twin:
             ws.groups.append((f1, [at(1, mb, f"Rec({f1}: Int)", 4), at(1, mb, f"Rec({f1}: 5)", 4)]))
+    # the constructor itself: declaration, unqualified use, qualified uses in an expression and in a pattern
+    cgroup = [at(0, ma, f"  Rec({f1}: Int", 2), at(0, ma, f"  Rec({f1}: 1", 2), at(1, mb, f"ma.Rec({f2}: 2", 3), at(1, mb, f"ma.Rec({f1}: a", 3)]
+    ws.groups = getattr(ws, "groups", []) + [("Rec", cgroup)]
+    if local_twin:
+        ws.groups.append(("Rec", [at(1, mb, f"  Rec({f1}: Int)", 2), at(1, mb, f"  Rec({f1}: 5)", 2)]))
     return ws
 
 
@@ -131,7 +136,7 @@ def run_expected_groups(res, prop, wss):
             for (f, o) in group:
                 q.append(f"goto\t{f}\t{o}")
             q.append(f"refs\t{group[0][0]}\t{group[0][1]}")
-            q.append(f"rename\t{group[0][0]}\t{group[0][1]}\t{hexs(name + '_zq')}")
+            q.append(f"rename\t{group[0][0]}\t{group[0][1]}\t{hexs(name + ('Zq' if name[0].isupper() else '_zq'))}")
         batches.append((ws, q))
     batches = [b for b in batches if b[1]]
     if not batches:
@@ -369,7 +374,12 @@ def run_c08(res, tier, seed):
                 continue
             cls = name_class(c)
             need = {"lower": "lower", "upper": "upper"}.get(kind)
-            aliased = prep.startswith("err Can't rename aliased")
+            # an aliased spelling, decided from the text: the token does not spell the definition's own name
+            own = None
+            if goto is not None:
+                m_own = re.match(r"[A-Za-z_][A-Za-z0-9_]*", C08_FILES[goto[0]][1][goto[1]:goto[2]])
+                own = m_own.group(0) if m_own else None
+            aliased = own is not None and own != t.text
             should = (need is not None and cls == need and target_local and not aliased and goto is not None)
             if ok and not should:
                 why = ("name of the wrong class or not a single identifier" if (need is None or cls != need) else
